@@ -1,5 +1,6 @@
 import CwMt.Proofs.EngineInv
 import CwMt.Proofs.EngineB
+import CwMt.Proofs.EngineBig
 /-
   C12 — Only the current admin can migrate or re-assign admin; migration keeps state.
 -/
@@ -109,5 +110,32 @@ theorem change_needs_admin_involved {E : Type} (cfg : Config E) (hf : ExtFrame c
     (hchg : cd'.admin ≠ cd.admin ∨ cd'.codeId ≠ cd.codeId) :
     ∃ a, cd.admin = some a ∧ (a = sender ∨ ∃ e ∈ new, e.callee = a) :=
   EngineInv.change_needs_admin_involved cfg hf blk fuel ch ch' sender m tr new r h c cd cd' hc hc' hchg
+
+/-! ### the complete rule of `WasmMsg::Migrate` as a fuel-free judgement (CwMt/Model/EngineBig.lean): authorisation first, then the new code id is recorded, then the NEW code's `migrate` runs on the same storage -/
+
+/-- `WasmMsg::Migrate`: checks, then the new code id is recorded, then `migrate` of the NEW code runs on that state,
+then its sub-messages; data wrapped as for execute -/
+theorem migrate_rule (cfg : Config E) (blk : Block) (ch : Chain E) (s : Addr) (contract : String) (newCodeId : Nat)
+    (m : Val) (o : Out E) :
+    Exec cfg blk ch s (.wasmMigrate contract newCodeId m) o ↔
+      (if cfg.validAddr contract = false then o = .err else
+       if codeKnown cfg newCodeId = false then o = .err else
+       match ch.contracts.get? contract with
+       | none => o = .err
+       | some cd =>
+         if cd.admin ≠ some s then o = .err else
+         match (callContract cfg blk { ch with contracts := ch.contracts.set contract { cd with codeId := newCodeId } }
+                  contract (.migrate m) []).1 with
+         | .ok (resp, ch₂) =>
+           ∃ o', Proc cfg blk ch₂ contract
+               (buildAppResponse contract { ty := "migrate", attrs := [contractAttr contract, ⟨"code_id", toString newCodeId⟩] } resp).1
+               (buildAppResponse contract { ty := "migrate", attrs := [contractAttr contract, ⟨"code_id", toString newCodeId⟩] } resp).2 o' ∧
+             o = (match o' with
+                  | .ok (r, ch₃) => .ok ({ r with data := r.data.map encodeExecuteResponse }, ch₃)
+                  | other => other)
+         | .err => o = .err
+         | .panic => o = .panic
+         | .outOfFuel => False) :=
+  EngineBig.exec_wasm_migrate cfg blk ch s contract newCodeId m o
 
 end CwMt.C12
